@@ -804,6 +804,9 @@ func c06FirstExtend(c *fw.Ctx, b fw.Batch) {
 	time.Sleep(time.Duration(2+b.Idx%5) * time.Millisecond)
 	mimetype.Extend(func(raw []byte, _ uint32) bool { return bytes.HasPrefix(raw, []byte("VERIF-FIRST-EXTEND")) }, "application/x-verif-first", ".vf1")
 	atomic.StoreInt32(&extended, 1)
+	if lk := mimetype.Lookup("application/x-verif-first"); lk == nil || !lk.Is("application/x-verif-first") {
+		atomic.AddInt64(&wrong, 1)
+	}
 	time.Sleep(20 * time.Millisecond)
 	close(stop)
 	wg.Wait()
@@ -1025,7 +1028,7 @@ func c06SharedCase(c *fw.Ctx, x []byte, lim uint32, race bool, procs int) {
 
 func c06SharedInputs(r *rand.Rand) [][]byte {
 	ins := append([][]byte{}, lib.Seeds()...)
-	ins = append(ins, c18KnownTar())
+	ins = append(ins, c18KnownTar(), bytes.Repeat([]byte("alpha,beta,gamma\n"), 300), bytes.Repeat([]byte("a\tb\tc\n"), 300), bytes.Repeat([]byte("{\"a\":[1,2,3]}\n"), 200))
 	for i := 0; i < 12; i++ {
 		a, _ := c18Archive(r)
 		ins = append(ins, a)
@@ -1033,8 +1036,110 @@ func c06SharedInputs(r *rand.Rand) [][]byte {
 	return ins
 }
 
+// c06Liveness: calls that must not block each other for ever.
+// (1) DetectReader on a reader whose data only arrives after another goroutine's Extend has
+// returned (the library must not hold its tree lock while it waits for the caller's reader);
+// (2) after a detector registered through Extend panicked and the caller recovered, Extend and
+// Detect still return (a lock taken for the walk is released on every path).
+// The 10 s waits are liveness guards of the harness: correct code needs microseconds.
+func c06Liveness(c *fw.Ctx) {
+	// (1)
+	extDone := make(chan struct{})
+	rd := &c06GatedReader{b: []byte("{\"type\":\"Feature\",\"k\":[1,2,3]}"), gate: extDone}
+	resCh := make(chan string, 1)
+	go func() {
+		mimetype.SetLimit(3072)
+		m, _ := mimetype.DetectReader(rd)
+		resCh <- lib.ChainOf(m).String()
+	}()
+	<-rdStarted(rd)
+	go func() {
+		mimetype.Extend(func(raw []byte, _ uint32) bool { return bytes.HasPrefix(raw, []byte("VERIF-LIVENESS")) }, "application/x-verif-liveness", ".vl")
+		close(extDone)
+	}()
+	c.Eval(1)
+	c.Count("liveness_scenarios", 1)
+	select {
+	case <-resCh:
+	case <-time.After(10 * time.Second):
+		c.Violate("calls-block-each-other", "DetectReader waits for its reader while Extend waits for DetectReader", "Extend did not return within 10 s while a DetectReader call was waiting for data from its reader (the reader delivers only after that Extend has returned): the tree lock is held across the caller's Read", c06Payload{What: "liveness"})
+		rd.force()
+		<-resCh
+	}
+	// (2)
+	mimetype.Extend(func(raw []byte, _ uint32) bool { return raw[0] == 'V' && raw[1] == 'X' }, "application/x-verif-faulty", ".vf") // no length check: panics on inputs shorter than 2 bytes
+	func() {
+		defer func() { recover() }()
+		mimetype.Detect([]byte{})
+	}()
+	func() {
+		defer func() { recover() }()
+		mimetype.DetectReader(bytes.NewReader([]byte("V")))
+	}()
+	done := make(chan struct{})
+	go func() {
+		mimetype.Extend(func(raw []byte, _ uint32) bool { return false }, "application/x-verif-after-fault", ".va")
+		mimetype.Detect([]byte("plain text after the fault"))
+		mimetype.Lookup("text/plain")
+		close(done)
+	}()
+	c.Eval(1)
+	c.Count("liveness_scenarios", 1)
+	select {
+	case <-done:
+	case <-time.After(10 * time.Second):
+		c.Violate("calls-block-each-other", "Extend after a recovered detector panic", "after a detector registered with Extend panicked inside Detect / DetectReader and the caller recovered, a later Extend + Detect + Lookup did not return within 10 s (a lock taken for the tree walk was not released)", c06Payload{What: "liveness"})
+	}
+	mimetype.VerifResetTree()
+}
+
+type c06GatedReader struct {
+	b       []byte
+	gate    chan struct{}
+	started chan struct{}
+	once    sync.Once
+	forced  chan struct{}
+	pos     int
+}
+
+func rdStarted(r *c06GatedReader) chan struct{} {
+	r.once.Do(func() { r.started = make(chan struct{}); r.forced = make(chan struct{}) })
+	return r.started
+}
+
+func (r *c06GatedReader) force() { close(r.forced) }
+
+func (r *c06GatedReader) Read(p []byte) (int, error) {
+	rdStarted(r)
+	if r.pos == 0 {
+		select {
+		case <-r.started:
+		default:
+			close(r.started)
+		}
+		select {
+		case <-r.gate:
+		case <-r.forced:
+		}
+	}
+	if r.pos >= len(r.b) {
+		return 0, io.EOF
+	}
+	n := copy(p, r.b[r.pos:])
+	r.pos += n
+	return n, nil
+}
+
 func c06SharedRun(c *fw.Ctx, b fw.Batch) {
 	procs := runtime.GOMAXPROCS(0)
+	if !b.Race {
+		c06Liveness(c)
+	}
+	// one detection of a text with a single line of more than 1 MiB (limit 0) first: whatever
+	// the pooled readers / parsers are left with must not be shared by two later detections
+	mimetype.SetLimit(0)
+	mimetype.Detect(append(bytes.Repeat([]byte("a,b;c "), 220000), "\n1,2\n"...))
+	mimetype.Detect(append(append([]byte("[\""), bytes.Repeat([]byte("x"), 1200000)...), "\"]"...))
 	ins := c06SharedInputs(c.Rand)
 	for rep := 0; rep < b.N; rep++ {
 		for _, x := range ins {
